@@ -1,5 +1,53 @@
+import IwModel.Lemmas.BinnRoundtrip
 import IwModel.Model.BinnPrint
 import IwModel.Model.TreeClone
-/-! # C14 — text, tree and binary forms of a document agree, and so do path look-ups -/
+/-! # C14 — text, tree and binary forms of a document agree, and so do path look-ups
+
+Property theorems only; helper lemmas live in `IwModel/Lemmas`. `Binn.wf v` is the quantifier of the property
+(keys ≤ 255 bytes, NUL free, unique ignoring ASCII case) plus: integers fit `int64_t`, doubles are 64-bit patterns,
+**string values are NUL free** (open finding C14-NUL, see `nul_string_cut`). `small v` says the encoded document
+is shorter than 2^31 - 9 bytes (the binn size fields are 31 bits wide). -/
 namespace IwModel.C14
+open IwModel IwModel.Binn
+
+/-- the encoded document fits the 31-bit size fields -/
+def small (v : JVal) : Prop := ∀ bs, enc v = some bs → bs.length + 9 < 2 ^ 31
+
+/-- **tree → binary → tree is the identity** (`jbl_fill_from_node`/`jbl_from_node` followed by `jbl_to_node`):
+    every well-formed document is accepted by the writer, and reading the holder back with any fuel above the
+    nesting depth — in particular with the fuel `fuelOf` the driver uses — returns the document itself. -/
+theorem binn_roundtrip (v : JVal) (hw : wf v = true) (hs : small v) :
+    ∃ b, fromNode v = some b ∧ (∀ fuel, depth v < fuel → toNode fuel b = some v) ∧ toNode (fuelOf b) b = some v := by
+  obtain ⟨bs, he⟩ := enc_isSome v hw
+  refine ⟨viewOf v, fromNode_eq_viewOf v hw, fun fuel hd => toNode_view v fuel bs hw he (hs bs he) hd, ?_⟩
+  apply toNode_view v _ bs hw he (hs bs he)
+  have hd := depth_le v bs he
+  cases v with
+  | arr xs => simp only [viewOf, he, Option.getD_some, fuelOf]; omega
+  | obj ms => simp only [viewOf, he, Option.getD_some, fuelOf]; omega
+  | _ => simp [depth, viewOf, fuelOf]
+
+/-- the writer refuses (JBL_ERROR_CREATION) exactly the objects whose keys do not fit: a key longer than 255
+    bytes or equal to an earlier key of the same object ignoring ASCII case -/
+theorem writer_rejects_bad_keys (k k' : Bytes) (v v' : JVal) :
+    (k.length > 255 → fromNode (.obj [(k, v)]) = none) ∧
+    (sameKey k k' = true → fromNode (.obj [(k, v), (k', v')]) = none) := by
+  constructor
+  · intro h
+    simp only [fromNode, enc, encMembers, Gen.Binn.MAX_BIN_KEY_LEN]
+    cases enc v <;> simp [h]
+  · intro h
+    simp only [fromNode, enc, encMembers, dupKey, List.any_cons, List.any_nil, Bool.or_false, h]
+    cases enc v <;> cases enc v' <;> simp <;> intros <;> simp_all
+
+/-- open finding C14-NUL, exhibited by the model: a string value with an embedded NUL comes back cut -/
+theorem nul_string_cut :
+    (fromNode (.arr [.str [97, 0, 98]])).bind (toNode 5) = some (.arr [.str [97]]) := by
+  rfl
+
+/-- non-vacuity: a document satisfying the hypotheses, with its binary form -/
+example : wf (.obj [([97], .int (-5)), ([98], .arr [.str [104, 105], .null])]) = true ∧
+    enc (.obj [([97], .int (-5)), ([98], .arr [.str [104, 105], .null])]) =
+      some [226, 18, 2, 1, 97, 33, 251, 1, 98, 224, 9, 2, 160, 2, 104, 105, 0, 0] := by decide
+
 end IwModel.C14
